@@ -47,6 +47,7 @@ def build_names(d):
         'dollar': ['a$b', '$x', 'c$', 'd'],
         'own_names': ['tb_iter', 'block', 'toplevel', 'mem_0'],
         'whitespace': ['a', 'a\n', 'r\t', 'o '],
+        'mem_newline': ['a', 'b', 'r', 'o'],
         'newline_mid': ['x\ny', 'x', 'y', 'x y'],
     }
     n0, n1, n2, n3 = sets[k]
@@ -55,7 +56,12 @@ def build_names(d):
     r = pyrtl.Register(4, n2, reset_value=d.get('rv', 5))
     o = pyrtl.Output(5, n3)
     r.next <<= (r + a)[0:4] ^ b
-    if k == 'own_names':
+    if k == 'mem_newline':
+        # the NAME of a memory is free text as well: one with a line break in it (memory names end up in comments)
+        m = pyrtl.MemBlock(bitwidth=5, addrwidth=2, name='buf\n    assign o = 0; // ', asynchronous=True)
+        m[a] <<= pyrtl.concat(r[0], r)
+        o <<= m[a] + b
+    elif k == 'own_names':
         # a memory too: its generated array is called mem_<id>, which one of the wires is already called
         m = pyrtl.MemBlock(bitwidth=5, addrwidth=2, name='m', asynchronous=True)
         m[a] <<= pyrtl.concat(r[0], r)
@@ -70,11 +76,11 @@ designs.register_family('NAMES', build_names)
 
 def names_cases():
     return [{'fam': 'NAMES', 'kind': k} for k in ('keywords', 'illegal_chars', 'brackets', 'collide_tmp', 'two_bad', 'sortkey_tie', 'plain',
-                                                     'keywords2', 'keywords3', 'unicode', 'dollar', 'own_names', 'whitespace', 'newline_mid')]
+                                                     'keywords2', 'keywords3', 'unicode', 'dollar', 'own_names', 'whitespace', 'newline_mid', 'mem_newline')]
 
 
 def bounds(tier):
-    return {'designs': 'OP (all ops but nand) widths %s, EXPR %d, SEQ, MISC, NAMES (14 adversarial name sets)' % (
+    return {'designs': 'OP (all ops but nand) widths %s, EXPR %d, SEQ, MISC, NAMES (15 adversarial name sets)' % (
         [1, 2, 3, 4, 5, 8] if tier == 'quick' else designs.WT, 20 if tier == 'quick' else 400), 'K': 3 if tier == 'quick' else 5,
         'add_reset': RESETS, 'testbench trace sources': ['sim', 'fast', 'compiled']}
 
